@@ -134,6 +134,89 @@ def gen_random(rng, tier):
             "include_latents": rng.random() < .5, "cont": rng.choice(["list", "set", "tuple"]), "shape": shape}
 
 
+# ----------------------------------------------------------------------------- one graph object that is queried, edited, queried again
+def gen_edit_history(rng, tier):
+    n = rng.randint(4, 6)
+    _, edges = gen.rand_dag_edges(rng, n, rng.choice(["gnp", "gnp_dense", "collider", "diamond", "family"]))
+    edges = [list(e) for e in edges]
+    cur = [tuple(e) for e in edges]
+    steps = []
+    obs0 = [v for v in range(n) if rng.random() < .35] or [rng.randrange(n)]
+    steps.append({"k": "query", "obs": obs0})
+    for _ in range(rng.randint(2, 5)):
+        k = rng.choice(["query", "query", "remove_edge", "remove_edge", "add_edge", "remove_edges_from", "do"])
+        if k == "query":
+            # mostly the SAME observed set as before: an answer remembered across an edit would be served again
+            steps.append({"k": "query", "obs": obs0 if rng.random() < .7 else [v for v in range(n) if rng.random() < .35]})
+        elif k in ("remove_edge", "remove_edges_from") and cur:
+            es = rng.sample(cur, 1 if k == "remove_edge" else min(len(cur), 2))
+            for e in es:
+                cur.remove(e)
+            steps.append({"k": k, "edges": [list(e) for e in es]})
+        elif k == "add_edge":
+            cand = [(a, b) for a in range(n) for b in range(n) if a != b and (a, b) not in cur and gen.is_acyclic(n, cur + [(a, b)])]
+            if cand:
+                e = rng.choice(cand)
+                cur.append(e)
+                steps.append({"k": "add_edge", "edges": [list(e)]})
+        elif k == "do":
+            v = rng.randrange(n)
+            cur = [e for e in cur if e[1] != v]
+            steps.append({"k": "do", "v": v})
+    steps.append({"k": "query", "obs": obs0})
+    return {"n": n, "edges": edges, "steps": steps, "names": gen.node_names(rng, n, rng.choice(["str", "int0"]))}
+
+
+def run_edit_history(case, drv):
+    """d-separation answers after any sequence of edits must be those of the CURRENT graph"""
+    n = case["n"]
+    names = case["names"]
+    pn = [gen.lab(x) for x in names]
+    g = mk_dag(names, case["edges"])
+    cur = [tuple(e) for e in case["edges"]]
+    nq = 0
+    for i, st in enumerate(case["steps"]):
+        try:
+            if st["k"] == "query":
+                obs = st["obs"]
+                m = drv.call("g_active_all", g={"nodes": list(range(n)), "edges": [list(e) for e in cur]}, obs=obs)
+                res = g.active_trail_nodes(list(pn), observed=[pn[v] for v in obs])
+                for e in m:
+                    exp = {pn[v] for v in e["spec"]}
+                    got = set(res[pn[e["x"]]])
+                    if got != exp:
+                        return fail(f"step {i}: after the edits {[s_['k'] for s_ in case['steps'][:i]]} active_trail_nodes({pn[e['x']]!r}, "
+                                    f"observed={[pn[v] for v in obs]}) = {sorted(map(str, got))}, the current graph {cur} gives {sorted(map(str, exp))}")
+                if obs:
+                    anc = set(g.get_ancestral_graph([pn[v] for v in obs]).nodes())
+                    manc = {pn[v] for v in drv.call("g_ancestors", g={"nodes": list(range(n)), "edges": [list(e) for e in cur]}, zs=obs)}
+                    if anc != manc:
+                        return fail(f"step {i}: get_ancestral_graph({[pn[v] for v in obs]}) has nodes {sorted(map(str, anc))}, current graph gives {sorted(map(str, manc))}")
+                nq += 1
+            elif st["k"] == "remove_edge":
+                (a, b), = st["edges"]
+                g.remove_edge(pn[a], pn[b])
+                cur.remove((a, b))
+            elif st["k"] == "remove_edges_from":
+                g.remove_edges_from([(pn[a], pn[b]) for a, b in st["edges"]])
+                for a, b in st["edges"]:
+                    cur.remove((a, b))
+            elif st["k"] == "add_edge":
+                (a, b), = st["edges"]
+                g.add_edge(pn[a], pn[b])
+                cur.append((a, b))
+            elif st["k"] == "do":
+                g = g.do([pn[st["v"]]], inplace=rng_bool(i, n))
+                cur = [e for e in cur if e[1] != st["v"]]
+        except Exception as ex:
+            return fail(f"step {i} ({st['k']}) raised {type(ex).__name__}: {ex}")
+    return ok(nontrivial=nq >= 2, n=n, steps=len(case["steps"]))
+
+
+def rng_bool(i, n):
+    return (i + n) % 2 == 0
+
+
 # ----------------------------------------------------------------------------- derived sets
 def gen_derived(rng, tier):
     n = rng.randint(1, 6)
@@ -267,6 +350,7 @@ def run_minsep(case, drv):
 STREAMS = [
     Stream("exhaustive", enum=enum_small, run=run_active),
     Stream("random", gen_random, run_active, quick=600, thorough=8000),
+    Stream("edit_history", gen_edit_history, run_edit_history, quick=400, thorough=4000),
     Stream("derived", gen_derived, run_derived, quick=400, thorough=4000),
     Stream("independencies", gen_indep, run_indep, quick=200, thorough=2000),
     Stream("minsep", gen_minsep, run_minsep, quick=600, thorough=8000),
